@@ -22,7 +22,7 @@ use tokio::task::JoinHandle;
 use uuid::Uuid;
 
 use crate::lanes::{AgentCtl, AgentShared, Controls, LaneCtl, LaneRec, RawAgent, SharedLane};
-use crate::plan::{Ending, Plan, Step};
+use crate::plan::{Ending, Plan, Step, StoreMode};
 use crate::remote::{new_ctl, reader_task, set_stalled, writer_task, Frame, FrameLog, PacedReader, Req, ReqKind, ReqLog, SharedCtl, SharedLog, SharedReqs, WriterCmd, FAST};
 use crate::store::{Op as StoreOp, RecStore, State};
 
@@ -36,6 +36,10 @@ pub struct Session {
     pub frames: Vec<Frame>,
     /// The requests this attachment wrote (with the virtual time of each).
     pub reqs: Vec<Req>,
+    /// Which remote of the plan this was an attachment of.
+    pub remote: usize,
+    /// How the runtime completed the attachment, if it did (None inside: the promise was dropped).
+    pub completion: Option<Option<DisconnectionReason>>,
 }
 
 struct Live {
@@ -78,6 +82,16 @@ pub struct Obs {
     /// The runtime ended by itself while the script was still running (ticket at which this was
     /// noticed): with a finite inactivity time-out that is legitimate.
     pub ended_during_script: Option<u64>,
+    /// Records of the store items (shape of a lane's record).
+    pub stores: Vec<LaneRec>,
+    /// Number of read calls the store saw (`get_value` / `read_map`).
+    pub store_reads: u64,
+    /// `id_for` calls that were refused (fault injection): (ticket, name).
+    pub id_refused: Vec<(u64, String)>,
+    /// Script steps that let everything runnable run (`Quiesce`, `Advance`): (ticket before, ticket after).
+    pub quiesces: Vec<(u64, u64)>,
+    /// Number of script steps that were executed.
+    pub steps_done: usize,
 }
 
 fn nz(n: usize) -> NonZeroUsize {
@@ -92,7 +106,7 @@ fn runtime_config(plan: &Plan) -> AgentRuntimeConfig {
         inactive_timeout: plan.timeout_ms.map_or(NEVER, Duration::from_millis),
         prune_remote_delay: NEVER,
         shutdown_timeout: Duration::from_secs(5),
-        item_init_timeout: Duration::from_secs(5),
+        item_init_timeout: Duration::from_millis(plan.item_init_timeout_ms),
         command_output_timeout: NEVER,
         ..Default::default()
     }
@@ -118,8 +132,10 @@ struct Runner {
     sessions: Vec<Session>,
     stuck: Vec<String>,
     lane_tx: Vec<mpsc::UnboundedSender<LaneCtl>>,
+    store_tx: Vec<mpsc::UnboundedSender<LaneCtl>>,
     agent_tx: Option<mpsc::UnboundedSender<AgentCtl>>,
     attachments: u128,
+    quiesces: Vec<(u64, u64)>,
 }
 
 impl Runner {
@@ -165,8 +181,8 @@ impl Runner {
         live.watcher.abort();
         let frames = std::mem::take(&mut live.log.lock().frames);
         let reqs = live.reqs.lock().reqs.clone();
-        let _ = r;
-        self.sessions.push(Session { frames, reqs });
+        let completion = live.completion.lock().clone();
+        self.sessions.push(Session { frames, reqs, remote: r, completion });
     }
 
     fn send(&mut self, r: usize, kind: ReqKind, lane: &str) {
@@ -237,10 +253,29 @@ impl Runner {
                     tokio::task::yield_now().await;
                 }
             }
-            Step::Quiesce => settle().await,
+            Step::Quiesce => {
+                let t = ticket();
+                settle().await;
+                self.quiesces.push((t, ticket()));
+            }
             // Virtual time: returns when the clock has moved on by this much (every timer of the
             // runtime that expires on the way fires, in order).
-            Step::Advance(ms) => tokio::time::sleep(Duration::from_millis(*ms)).await,
+            Step::Advance(ms) => {
+                let t = ticket();
+                tokio::time::sleep(Duration::from_millis(*ms)).await;
+                self.quiesces.push((t, ticket()));
+            }
+            Step::RegisterStore(i) => {
+                if let Some(tx) = self.agent_tx.as_ref() {
+                    let _ = tx.send(AgentCtl::RegisterStore(*i));
+                }
+            }
+            Step::StoreApply { store, op } => {
+                if let Some(tx) = self.store_tx.get(*store) {
+                    let _ = tx.send(LaneCtl::Apply { op: op.clone(), defer: false });
+                }
+            }
+            Step::Drain => self.drain(),
             Step::Poke(r, kind) => self.send(*r, *kind, UNKNOWN_LANE),
         }
     }
@@ -258,8 +293,18 @@ pub fn run_incarnation(plan: &Plan, base: &State, rng: &mut Rng) -> Obs {
         let store = RecStore::from_state(base2.clone());
         store.0.lock().fail_from = plan2.store_fails_from;
         store.0.lock().read_fails_at = plan2.store_read_fails_at;
+        store.0.lock().no_ids = plan2.store_mode == StoreMode::IdUnavailable;
+        store.0.lock().id_fails_for = plan2.id_fails_for.clone();
         let lane_recs: Vec<SharedLane> = (0..n_lanes).map(|_| Arc::new(Mutex::new(LaneRec::default()))).collect();
-        let shared = Arc::new(AgentShared { lanes: lane_recs.clone(), returned: Mutex::new(None), init_error: Mutex::new(None) });
+        let store_recs: Vec<SharedLane> = (0..plan2.stores.len()).map(|_| Arc::new(Mutex::new(LaneRec::default()))).collect();
+        let shared = Arc::new(AgentShared { lanes: lane_recs.clone(), stores: store_recs.clone(), returned: Mutex::new(None), init_error: Mutex::new(None) });
+        let mut store_tx = vec![];
+        let mut store_rx = vec![];
+        for _ in 0..plan2.stores.len() {
+            let (tx, rx) = mpsc::unbounded_channel();
+            store_tx.push(tx);
+            store_rx.push(rx);
+        }
         let mut lane_tx = vec![];
         let mut lane_rx = vec![];
         for _ in 0..n_lanes {
@@ -272,8 +317,13 @@ pub fn run_incarnation(plan: &Plan, base: &State, rng: &mut Rng) -> Obs {
         let agent = RawAgent {
             specs: plan2.lanes.clone(),
             dynamic: plan2.dynamic.clone(),
+            faults: plan2.lane_faults.clone(),
+            stores: plan2.stores.clone(),
+            store_dynamic: plan2.store_dynamic.clone(),
+            store_faults: plan2.store_faults.clone(),
+            hold_ms: plan2.item_init_timeout_ms,
             shared: shared.clone(),
-            ctl: Mutex::new(Some(Controls { lane_ctl: lane_rx, agent_ctl: agent_rx, return_rx })),
+            ctl: Mutex::new(Some(Controls { lane_ctl: lane_rx, store_ctl: store_rx, agent_ctl: agent_rx, return_rx })),
             jitter: Mutex::new(Some((rng2.fork(), plan2.agent_jitter_per_mille))),
         };
         let (att_tx, att_rx) = mpsc::channel(8);
@@ -287,7 +337,11 @@ pub fn run_incarnation(plan: &Plan, base: &State, rng: &mut Rng) -> Obs {
         let descriptor = AgentRouteDescriptor { identity, route: NODE.parse().expect("route uri"), route_params: HashMap::new() };
         let task = AgentRouteTask::new(&agent, descriptor, AgentRouteChannels::new(att_rx, http_rx, link_tx), stop_rx, config, None);
         let store2 = store.clone();
-        let run = task.run_agent_with_store(async move { Ok(store2) });
+        let run: futures::future::BoxFuture<'static, Result<(), AgentExecError>> = match plan2.store_mode {
+            StoreMode::Recording | StoreMode::IdUnavailable => Box::pin(task.run_agent_with_store(async move { Ok(store2) })),
+            StoreMode::NoStore => Box::pin(task.run_agent()),
+            StoreMode::DisabledImpl => Box::pin(task.run_agent_with_store(async move { Ok(swimos_api::persistence::StoreDisabled) })),
+        };
         let agent_handle: JoinHandle<Result<(), AgentExecError>> = tokio::spawn(Jitter::new(run, rng2.fork(), plan2.jitter_per_mille));
 
         let mut runner = Runner {
@@ -298,13 +352,17 @@ pub fn run_incarnation(plan: &Plan, base: &State, rng: &mut Rng) -> Obs {
             sessions: vec![],
             stuck: vec![],
             lane_tx,
+            store_tx,
             agent_tx: Some(agent_tx),
             attachments: 0,
+            quiesces: vec![],
         };
         let mut agent_handle = Some(agent_handle);
         let mut ended_during_script = None;
+        let mut steps_done = 0;
         for step in &plan2.steps {
             runner.step(step).await;
+            steps_done += 1;
             if agent_handle.as_ref().map_or(false, |h| h.is_finished()) {
                 ended_during_script = Some(ticket());
                 break;
@@ -386,6 +444,9 @@ pub fn run_incarnation(plan: &Plan, base: &State, rng: &mut Rng) -> Obs {
         let (final_state, log, id_requests) = store.snapshot();
         let refused = store.0.lock().refused.clone();
         let read_refused = store.0.lock().read_refused.clone();
+        let stores: Vec<LaneRec> = store_recs.iter().map(|l| l.lock().clone()).collect();
+        let store_reads = store.0.lock().reads;
+        let id_refused = store.0.lock().id_refused.clone();
         Obs {
             plan: plan2,
             base: base2,
@@ -404,6 +465,11 @@ pub fn run_incarnation(plan: &Plan, base: &State, rng: &mut Rng) -> Obs {
             stuck: runner.stuck,
             epoch,
             ended_during_script,
+            stores,
+            store_reads,
+            id_refused,
+            quiesces: runner.quiesces,
+            steps_done,
         }
     })
 }
